@@ -339,9 +339,17 @@ fn resolve_constants(exprs: &HashMap<&str, &SpannedExpr>) -> Result<HashMap<Stri
     match graph.topological_sort() {
         Ok(sorted) => {
             let mut results = HashMap::new();
+            let mut widths: HashMap<&str, WireWidth> = HashMap::new();
             for name in sorted {
-                match exprs.get(&name).unwrap().evaluate(&results) {
+                let expr = exprs.get(&name).unwrap();
+                // constants obey the same width rules as the expressions assigned to wires
+                if let Err(e) = expr.get_width_and_check(&widths, &results) {
+                    errors.push(e);
+                    continue;
+                }
+                match expr.evaluate(&results) {
                     Ok(value) => {
+                        widths.insert(name, value.width);
                         results.insert(
                             String::from(name),
                             value
